@@ -312,4 +312,20 @@ PROPS = {
         trusted_base=[],
         technique="bounded run-time stand-in (nested vs top-level rendering of generated Markdown) - no contract discharged yet",
     ),
+    "C09": dict(
+        level="exploration",
+        contracts=[],
+        harness=True,
+        explanation=(
+            "BOUNDED ONLY so far (ResolveAnchorIds.apply and the render_link dispatch are not yet under contract): documents "
+            "over 8 kinds of target providers ('(name)=' before a heading / paragraph / captioned figure, attribute ids - also "
+            "written with upper case -, a directive :name:, a heading slug) with empty-text and explicit-text links, "
+            "explicit-over-slug priority in both orders, and missing targets: one reference node per link, refid of the node "
+            "that carries the target, implicit text = target title or '#name', exactly one 'target not found' warning per "
+            "unresolvable link at the link's own line."
+        ),
+        assumptions=["docutils name/id registries (note_explicit_target, ids)"],
+        trusted_base=[],
+        technique="bounded run-time stand-in (generated target/link documents) - no contract discharged yet",
+    ),
 }
